@@ -458,8 +458,31 @@ func splitSchema(s *hcl.BodySchema, k int, r *lib.Rand) []*hcl.BodySchema {
 // steps: law 3. PartialContent with part 1 ... Content with the last part, merged, equals one Content
 // with the union schema. Needs no specification, so it also runs where JSON outcomes are schema-dependent.
 func (c *checker) steps(body hcl.Body, s *hcl.BodySchema, k int) string {
+	return c.stepsOver(body, s, splitSchema(s, k, c.r), false)
+}
+
+// singletonParts: every attribute name and every block type in a step of its own, in random order — so that
+// some steps match nothing, or match only items that yield no content (a block with the wrong number of
+// labels, a dynamic group over an empty collection), before the step that needs what they left.
+func singletonParts(s *hcl.BodySchema, r *lib.Rand) []*hcl.BodySchema {
+	var parts []*hcl.BodySchema
+	for _, a := range s.Attributes {
+		parts = append(parts, &hcl.BodySchema{Attributes: []hcl.AttributeSchema{a}})
+	}
+	for _, b := range s.Blocks {
+		parts = append(parts, &hcl.BodySchema{Blocks: []hcl.BlockHeaderSchema{b}})
+	}
+	for i := len(parts) - 1; i > 0; i-- {
+		j := r.Intn(i + 1)
+		parts[i], parts[j] = parts[j], parts[i]
+	}
+	return parts
+}
+
+// stepsOver: requery = between two steps the current remaining body is also asked (PartialContent with the
+// next part, twice, results discarded): a body is a value, asking it must not change what it answers later.
+func (c *checker) stepsOver(body hcl.Body, s *hcl.BodySchema, parts []*hcl.BodySchema, requery bool) string {
 	one, oneDiags := body.Content(s)
-	parts := splitSchema(s, k, c.r)
 	attrs := hcl.Attributes{}
 	var blocks hcl.Blocks
 	anyErr := false
@@ -467,6 +490,12 @@ func (c *checker) steps(body hcl.Body, s *hcl.BodySchema, k int) string {
 	for i, p := range parts {
 		var ct *hcl.BodyContent
 		var d hcl.Diagnostics
+		if requery {
+			_, _, _ = cur.PartialContent(p)
+			if i+1 < len(parts) {
+				_, _, _ = cur.PartialContent(parts[i+1])
+			}
+		}
 		if i < len(parts)-1 {
 			var rem hcl.Body
 			ct, rem, d = cur.PartialContent(p)
@@ -738,6 +767,19 @@ func (c *checker) runLaws(body hcl.Body, items []cItem, grouped bool, depth int,
 				c.fail(sub+cl, fmt.Sprintf("processing in %d steps over a disjoint split of the schema differs from one exhaustive step", k), "")
 			}
 		})
+		if n := len(s.Attributes) + len(s.Blocks); n >= 2 && n <= 10 {
+			res.Count("steps-singletons")
+			c.guard(func() {
+				if cl := c.stepsOver(body, s, singletonParts(s, c.r), false); cl != "" {
+					c.fail(sub+cl+":one-name-per-step", "processing one schema entry per step differs from one exhaustive step", "")
+				}
+			})
+		}
+		c.guard(func() {
+			if cl := c.stepsOver(body, s, splitSchema(s, k, c.r), true); cl != "" {
+				c.fail(sub+cl+":with-discarded-queries", "asking a remaining body (results discarded) changed what later steps return", "")
+			}
+		})
 		res.Case(hashOf(c.im.name+"|"+c.schema+"|"+fmt.Sprint(c.caseSeed, depth, i)), len(v) > 0 && len(s.Attributes)+len(s.Blocks) > 0)
 	}
 	c.law = "justattributes"
@@ -944,4 +986,5 @@ func run(cx *lib.Ctx) {
 		runCase(cx, cx.R.U64(), i < 1)
 	}
 	corrBody(cx)
+	corrMerged(cx)
 }
